@@ -974,7 +974,7 @@ def helper_cases():
             for fill in ('aa', '00'):
                 out.append('helper pad %d a%d:%s' % (pad, ln, fill))
     for pt in (0, 77, 192, 199, 207, 210, 242, 255):
-        for pad in (0, 4, 252):
+        for pad in (0, 1, 4, 252):
             for cnt in (0, 1, 31):
                 for ln in (3, 4, 8, 12, 260, 1500):
                     out.append('helper hdr %d %d %d a%d:55' % (pt, pad, cnt, ln))
@@ -1187,7 +1187,8 @@ def _c09_extra(self, g, tier, h):
     return out + [l for l in relation_parse_lines(tier) if entry_of(l) in self.FIXED]
 _extend_cases(C09, _c09_extra)
 
-_extend_cases(C10, lambda self, g, tier, h: [l for l in relation_image_lines(h, ['sdes'], also=()) ])
+_extend_cases(C10, lambda self, g, tier, h: [l for l in relation_image_lines(h, ['sdes'], also=())] +
+              [l for l in relation_parse_lines(tier) if entry_of(l) == 'sdes'])
 
 def _c11_extra(self, g, tier, h):
     out = [l for l in relation_parse_lines(tier) if entry_of(l) == 'compound']
